@@ -302,7 +302,7 @@ def run(ctx):
         sims = [("simA", (2, "KindsABC", [1, 2, 3, 4, 5, 6], 24, 3, True, T4, True), 1500),
                 ("simB", (2, "KindsCCA", [2, 4, 5, 6], 20, 3, False, ["HEh", "ELog"], True), 800),
                 ("simC", (2, "KindsBCB", [1, 3, 5, 6], 20, 3, True, ["HLog", "EEh"], True), 800)]
-    caps = {"core": 700, "links": 600, "comp": 400, "two": 500} if q else {}
+    caps = {"core": 700, "links": 600, "comp": 400, "two": 500} if q else {"core": 8000, "core2": 6000, "links": 8000, "comp": 4000, "two": 3500, "cca": 4000}
     for name, args in plan:
         hs += export_histories(ctx, name, args, cap=caps.get(name))
     for name, args, n in sims:
